@@ -62,10 +62,11 @@ RULE = ("events = 19 public-API operations on shared module-level decorator/pass
         "globals, depth 3 (quick) / 8 or cap (thorough). Oracle: bytes == golden bytes of the event alone in a "
         "fresh process. distinct_nontrivial = distinct (history, target) pairs + distinct (canonical state, "
         "event) pairs + distinct (seed, event|script) pairs compared against a golden; "
-        "(rules) for EVERY shipped rewrite-rule object (108, as discovered by C05) EVERY bound-0 instance of its C05 "
-        "rule space (17.8k host models) is rewritten by the shared object after whole-space histories: one chain per "
-        "rotation of the space's dimension list x {forward, backward} (every instance preceded by its neighbour along "
-        "every dimension), each chain in one forked process, compared with goldens computed in children forked from a "
+        "(rules) for EVERY shipped rewrite-rule object (108, as discovered by C05) EVERY instance of its C05 "
+        "rule space with at most one deviation in a rule-specific dimension (51k host models) is rewritten by the shared "
+        "object after whole-space histories: one chain per rotation of the space's dimension list (quick: at most 4 "
+        "rotations) x {forward, backward} (an instance is preceded by its neighbour along the rotated dimensions), each "
+        "chain in one forked process, compared with goldens computed in children forked from a "
         "pristine parent; (cross) every ordered pair (A, B) of first-firing instances of different rules; "
         "(fusions) the same chain exploration for the ORT-fusion rule objects: per C19 fusion family every configuration "
         "of its plan (quick: 3.3k models) built and fused by the family's single-fusion functions after whole-family "
